@@ -27,6 +27,9 @@ def key_descriptor(use, key_index):
     if key_index == "keyname":
         # a key that is only named (the certificate is expected to be known otherwise): legal, and nothing a certificate lookup can use
         return '<md:KeyDescriptor%s><ds:KeyInfo><ds:KeyName>signing-key-2020</ds:KeyName></ds:KeyInfo></md:KeyDescriptor>' % u
+    if key_index == "empty-certificate":
+        # (a certificate element that was left empty, e.g. by a template)
+        return '<md:KeyDescriptor%s><ds:KeyInfo><ds:X509Data><ds:X509Certificate/></ds:X509Data></ds:KeyInfo></md:KeyDescriptor>' % u
     if key_index == "x509-without-certificate":
         return ('<md:KeyDescriptor%s><ds:KeyInfo><ds:X509Data><ds:X509SubjectName>CN=idp</ds:X509SubjectName></ds:X509Data></ds:KeyInfo>'
                 '</md:KeyDescriptor>') % u
@@ -74,7 +77,7 @@ def _entity(d, lex):
     vu = ' validUntil="%s"' % d["valid_until"] if d.get("valid_until") else ""
     parts.append('<md:EntityDescriptor xmlns:md="%s" xmlns:ds="%s" xmlns:saml="%s" xmlns:mdattr="%s" entityID="%s"%s>' % (
         MD, DS, SAML, MDATTR, esc(d["eid"]), vu))
-    if d.get("entity_categories") or d.get("entity_category_support"):
+    if d.get("entity_categories") or d.get("entity_category_support") or d.get("valueless_entity_attribute"):
         typ = ' xmlns:xs="http://www.w3.org/2001/XMLSchema" xmlns:xsi="http://www.w3.org/2001/XMLSchema-instance" xsi:type="%s"' % lex["ecat_type"] \
             if lex.get("ecat_type") else ""
         attrs = ""
@@ -83,6 +86,9 @@ def _entity(d, lex):
             if d.get(key):
                 vals = "".join("<saml:AttributeValue%s>%s</saml:AttributeValue>" % (typ, esc(c)) for c in d[key])
                 attrs += '<saml:Attribute Name="%s" NameFormat="urn:oasis:names:tc:SAML:2.0:attrname-format:uri">%s</saml:Attribute>' % (aname, vals)
+        if d.get("valueless_entity_attribute"):
+            # an entity attribute that is a bare flag (no AttributeValue), in front of the others
+            attrs = '<saml:Attribute Name="%s" NameFormat="urn:oasis:names:tc:SAML:2.0:attrname-format:uri"/>' % esc(d["valueless_entity_attribute"]) + attrs
         parts.append('<md:Extensions><mdattr:EntityAttributes>%s</mdattr:EntityAttributes></md:Extensions>' % attrs)
     # role descriptors for other protocols than SAML 2.0 (d["saml11"] = {"idp": {...}, "sp": {...}, "first": bool}): same entity, same role
     # element, endpoints of their own - nothing of them is a SAML 2.0 endpoint of the entity
@@ -129,6 +135,9 @@ def _entity(d, lex):
                 else:
                     parts.append("<md:RequestedAttribute%s/>" % a)
             parts.append("</md:AttributeConsumingService>")
+        if sp.get("empty_service"):
+            # a second service that requests nothing (hand-written metadata; the schema wants at least one RequestedAttribute)
+            parts.append('<md:AttributeConsumingService index="2"><md:ServiceName xml:lang="en">svc2</md:ServiceName></md:AttributeConsumingService>')
         parts.append("</md:SPSSODescriptor>")
     aa = d.get("aa")
     if aa:
@@ -140,8 +149,9 @@ def _entity(d, lex):
     return "".join(parts)
 
 
-def entities(descs, valid_until=None, name="verif-federation", ident=None):
+def entities(descs, valid_until=None, name="verif-federation", ident=None, nested=()):
+    """nested: already rendered EntitiesDescriptor elements (an aggregate of aggregates), placed after the entities"""
     vu = ' validUntil="%s"' % valid_until if valid_until else ""
     i = ' ID="%s"' % ident if ident else ""
-    return '<md:EntitiesDescriptor xmlns:md="%s" Name="%s"%s%s>%s</md:EntitiesDescriptor>' % (
-        MD, esc(name), vu, i, "".join(entity(d) for d in descs))
+    return '<md:EntitiesDescriptor xmlns:md="%s" Name="%s"%s%s>%s%s</md:EntitiesDescriptor>' % (
+        MD, esc(name), vu, i, "".join(entity(d) for d in descs), "".join(nested))
